@@ -71,6 +71,9 @@ func checkC09(c *Ctx) {
 	c.Rule("C09-R14", "cells are encoded with the character set's encoder: wherever a screen's encoder and decoder are assigned, the encoder comes from NewEncoder and the decoder from NewDecoder (both have the same static type; the decoder used as encoder sends UTF-8 of Latin-1 code points, C1 bytes included, to an 8-bit terminal)")
 	c.Expect("C09-R14", 2)
 	checkTransformersNotSwapped(c, p, "C09-R14")
+	c.Rule("C09-R15", "numeric parameters only: %d writes the decimal form of the number it pops, by strconv or by a helper decided by constant evaluation over -1000..70000 (a helper short of digits writes ':' ';' '<' or control bytes into the CSI; = C15-R10)")
+	c.Expect("C09-R15", 1)
+	c.asRule("C15-R10", "C09-R15", func() { checkDecimalOutput(c, p, "C15-R10") })
 	c09Encapsulation(c, p)
 	c09Sanitiser(c, p)
 	c08Width(c, p, "C09-R3")
@@ -451,6 +454,9 @@ func c09Emissions(c *Ctx, p *Prog) {
 	for _, u := range db.unknown {
 		c.Undecided("C09-R5", "usage:"+u, "-", u)
 	}
+	c.Rule("C09-R16", "complete control sequences: where the screen rewrites a string of the description before use (stores into a Terminfo field from package tcell), the result is decided for every value the field has in the database and tokenises completely (a trim that cuts at '[' instead of ESC leaves a dangling ESC in front of the next write)")
+	c.Expect("C09-R16", 1)
+	checkCapabilityRewrites(c, p, "C09-R16", db)
 	// ECMA family = entries whose cup is the CSI form
 	var fam []*Entry
 	skipped := []string{}
